@@ -106,13 +106,14 @@ def run_case(ctx, rng, idx):
             elif mode == "dim-only":
                 deg_seq = None
     rescale = mode in ("sequences", "deg-only", "dim-only") and rng.random() < 0.3
+    warm = mode == "sequences" and not rescale and rng.random() < 0.35
     u, w = gen_params(rng, N)
     max_size = rng.choice([None, rng.randint(max(2, max((len(e) for e in (init_edges or [])), default=2), max(dim_seq or {2: 0})), N)])
 
     def wit(extra=None):
         return {"mode": mode, "N": N, "u": u.tolist() if N <= 12 else None, "w": w.tolist(), "max_hye_size": max_size, "burn_in": burn, "thinning": thin, "seed": seed,
                 "initial": None if init_edges is None else [sorted(e, key=repr) for e in init_edges] if len(init_edges) <= 30 else len(init_edges),
-                "deg_seq": None if deg_seq is None else deg_seq.tolist(), "dim_seq": dim_seq, "allow_rescaling": rescale, "exact_dyadic_sampling": exact_dyadic, "extra": repr(extra)[:900]}
+                "deg_seq": None if deg_seq is None else deg_seq.tolist(), "dim_seq": dim_seq, "allow_rescaling": rescale, "exact_dyadic_sampling": exact_dyadic, "sampler_used_before_for_another_pair": warm, "extra": repr(extra)[:900]}
 
     # ---- chain monitor ------------------------------------------------------------------------
     chain = {"steps": 0, "accepted": 0, "bad": None, "ref": None}
@@ -144,6 +145,14 @@ def run_case(ctx, rng, idx):
                 hh.add_node(n)
             it = s.sample(initial_hyg=hh)
         elif mode == "sequences":
+            if warm:
+                # the same sampler object was already used for another (realisable) pair of sequences: what it reports for
+                # THIS pair must not be left over from that call
+                k0 = N // 2
+                d0 = np.array([1.0] * (2 * k0) + [0.0] * (N - 2 * k0))
+                next(s.sample(deg_seq=d0, dim_seq={2: k0}))
+                chain.update(steps=0, accepted=0, bad=None, ref=None)
+                yielded.clear()
             it = s.sample(deg_seq=deg_seq.copy().astype(float), dim_seq=dict(dim_seq), allow_rescaling=rescale)
         elif mode == "deg-only":
             it = s.sample(deg_seq=deg_seq.copy().astype(float), allow_rescaling=rescale)
